@@ -8,6 +8,7 @@ import (
 	"log"
 	logslog "log/slog"
 	"runtime"
+	"strings"
 	"time"
 
 	"github.com/hedzr/is"
@@ -180,6 +181,24 @@ func (w *W) exec(task int, op *scen.Op) {
 		return
 	case "reset_flags":
 		slog.ResetFlags()
+		return
+	case "save_flags": // SaveFlagsAndMod(adding, removing...): names with a leading '-' are removed
+		var add slog.Flags
+		var rem []slog.Flags
+		for _, f := range op.S {
+			if strings.HasPrefix(f, "-") {
+				rem = append(rem, flagByName(f[1:]))
+			} else {
+				add |= flagByName(f)
+			}
+		}
+		w.flagRestores = append(w.flagRestores, slog.SaveFlagsAndMod(add, rem...))
+		return
+	case "restore_flags":
+		if n := len(w.flagRestores); n > 0 {
+			w.flagRestores[n-1]()
+			w.flagRestores = w.flagRestores[:n-1]
+		}
 		return
 	case "pkg_set_level":
 		slog.SetLevel(slog.Level(op.Lvl))
